@@ -95,54 +95,100 @@ def counter_loops(ctx, run, an):
     for n in walk(lam.body):
         if n.get("k") == "loop" and any(".token_idx" in canon(x.get("l")) for x in walk(n) if x.get("k") == "bin" and x.get("op") == "+="):
             targets.append((lam, n))
+    BOUNDED = ("at_raw", "peek_raw", "get_kind", "peek", "at_eof")   # accessors that answer false/None at the end of the token list
     for f, n in targets:
         body = n["b"]
         c = canon(n)
         site = f.site(n["ln"])
         name = f.qual
-        ok, why = False, ""
-        if n["k"] == "while" and n["c"]["k"] != "let":
-            cond = canon(n["c"])
-            incs = [x for x in body["s"] if x["k"] == "expr" and x["e"].get("k") == "bin" and x["e"]["op"] == "+=" and canon(x["e"]["l"]).endswith("token_idx")]
-            if "at_raw" in cond and len(incs) == 1 and len(body["s"]) == 1:
-                ok, why = True, "while <current raw token is trivia> { token_idx += 1 }: at_raw is false at the end of input"
-            elif cond == "(current != last)":
-                adv = [x for x in body["s"] if x["k"] == "expr" and canon(x["e"]) == "current = next"]
-                nxt = [x for x in body["s"] if x["k"] == "expr" and canon(x["e"]).startswith("next = ") and "current.add(1)" in canon(x["e"])]
-                ok = len(adv) == 1 and len(nxt) == 1 and "continue" not in c
-                why = "pointer walk: current advances by one element per iteration up to `last`"
-        elif n["k"] == "while" and n["c"]["k"] == "let":
-            # while let <trivia> = kind(idx) { idx = checked_sub(1) else return }  |  { add_token() }
-            scrut = canon(n["c"]["e"])
-            if "previous_token_idx" in scrut:
-                ok = "checked_sub(1)" in c and "return" in c
-                why = "index strictly decreases (checked_sub) and the function returns at 0"
-            elif "self.tokens.get_kind(self.token_idx)" in scrut:
-                ok = canon(body) .strip() in ("{ self.add_token(); }",)
-                why = "each iteration adds one token; get_kind is None at the end"
-        elif n["k"] == "loop":
-            first = body["s"][0] if body["s"] else None
-            if first is not None and first["k"] == "expr" and canon(first["e"]) == "p.token_idx += 1":
-                exits = [x for x in walk(body) if x.get("k") == "local" and x.get("else") is not None and "p.peek()" in canon(x["init"])]
-                ok = len(exits) == 1 and any(y.get("k") in ("return", "break") for y in walk(exits[0]["else"]))
-                why = "look-ahead: token_idx += 1 unconditionally first, loop left when peek() is None"
-            elif "self.tokens.get_kind(self.token_idx)" in c:
-                # Sink::skip_trivia: every non-breaking arm calls add_token (which advances), default arm breaks
-                m = [x for x in walk(body) if x.get("k") == "match"]
-                if len(m) == 1:
-                    arms_ok = True
-                    for h, p, g, b, arm in synq.match_table(m[0]):
-                        bc = canon(b)
-                        if "break" in bc:
-                            continue
-                        if "self.add_token()" not in bc:
-                            arms_ok = False
-                    ok = arms_ok
-                    why = "every arm that stays in the loop calls add_token (index + 1); the default arm breaks"
-        if ok:
-            run.ok(site, "%s: counter loop discharged: %s" % (name, why))
+
+        # progress: every path through the body that reaches the back edge (or `continue`) moved the index by one step
+        def step(node, st):
+            k = node.get("k")
+            if k == "bin" and node.get("op") in ("+=", "-=") and (canon(node["l"]).endswith("token_idx") or canon(node["l"]).endswith("_idx")):
+                return "moved"
+            if k == "mcall" and node["m"] in ("add_token", "bump") and canon(node["r"]) in ("self", "p"):
+                return "moved"
+            if k == "assign":
+                l, r = canon(node["l"]), canon(node["r"])
+                if (l.endswith("_idx") and "checked_sub(1)" in r) or (l == "current" and r == "next"):
+                    return "moved"
+            return st
+        fall, exits = paths.run(body, "unmoved", step)
+        stuck = [st for st in fall if st != "moved"] + [st for kind, label, st in exits if kind == "continue" and st != "moved"]
+        leaves = [kind for kind, label, st in exits if kind in ("return", "break")]
+        # bound: the walk ends
+        cond = canon(n["c"]) if n["k"] == "while" else ""
+        cond_src = canon(n["c"]["e"]) if n["k"] == "while" and n["c"]["k"] == "let" else cond
+        bound, why = False, ""
+        if any(("." + a + "(") in cond_src for a in BOUNDED):
+            bound, why = True, "the loop condition reads the token through a bounds-aware accessor (false/None at the end of input)"
+        elif "checked_sub(1)" in c and leaves:
+            bound, why = True, "the index decreases with checked_sub and the loop is left when it reaches 0"
+        elif cond == "(current != last)" and any(canon(x.get("e", {})).startswith("next = ") and "current.add(1)" in canon(x["e"]) for x in body["s"] if x["k"] == "expr") \
+                and not any(x.get("k") == "continue" for x in walk(body)):
+            bound, why = True, "pointer walk: current advances by one element per iteration up to `last`"
+        elif n["k"] == "loop" and leaves and any(("." + a + "(") in c for a in BOUNDED):
+            bound, why = True, "the body leaves the loop when a bounds-aware accessor answers None/false"
+        if not stuck and bound:
+            run.ok(site, "%s: index loop discharged: every iteration moves the index one step; %s" % (name, why))
+        elif stuck:
+            run.finding(name, "counter-loop@%s" % n["k"], f.file, n["ln"], "index-walking loop has a path through its body that does not move the index "
+                        "(cannot establish termination): %s" % c[:160])
         else:
-            run.finding(name, "counter-loop@%s" % n["k"], f.file, n["ln"], "index-walking loop does not match a monotone-counter obligation (cannot establish termination): %s" % c[:160])
+            run.finding(name, "counter-loop@%s" % n["k"], f.file, n["ln"], "index-walking loop: no bound found that ends the walk (cannot establish termination): %s" % c[:160])
+    trivia_agreement(ctx, run)
+
+
+def token_kinds(ctx, e, file):
+    """TokenKind names mentioned in an expression/pattern, looking through named TokenSet constants of the parser crate"""
+    out = set()
+    consts = {it["name"]: it for f, it in ctx.syn.items_of("const") if "parser/src/" in f}
+    for x in walk(e):
+        if x.get("k") in ("path", "p_path", "p_ident", "p_ts") :
+            pth = x.get("p") or x.get("n") or ""
+            if pth.startswith("TokenKind::"):
+                out.add(pth.split("::")[-1])
+            elif pth in consts:
+                out |= token_kinds(ctx, consts[pth]["e"], file)
+    return out
+
+
+def trivia_agreement(ctx, run):
+    """the parser steps over exactly the token kinds that the sink adds to the tree on its own (sibling agreement):
+    a kind skipped by the parser but not auto-added by the sink shifts every later token into the wrong node and
+    drops the last tokens of the input from the tree"""
+    ps = ctx.syn.fn("Parser::skip_trivia", "parser/src/parser.rs")
+    ss = ctx.syn.fn("Sink::skip_trivia", "parser/src/sink.rs")
+    loops = [n for n in walk(ps.body) if n.get("k") in ("while", "loop")]
+    if len(loops) != 1:
+        raise LookupError("loop of Parser::skip_trivia")
+    pk = token_kinds(ctx, loops[0]["c"] if loops[0]["k"] == "while" else loops[0]["b"], ps.file)
+    sk_sets = []
+    for n in walk(ss.body):
+        if n.get("k") == "match":
+            ks = set()
+            for h, p, g, b, arm in synq.match_table(n):
+                if "add_token" in canon(b):
+                    ks |= token_kinds(ctx, p, ss.file)
+            if ks:
+                sk_sets.append((n["ln"], ks))
+        if n.get("k") == "while" and "add_token" in canon(n["b"]):
+            sk_sets.append((n["ln"], token_kinds(ctx, n["c"], ss.file)))
+    if not sk_sets:
+        raise LookupError("trivia arms of Sink::skip_trivia")
+    for ln, ks in sk_sets:
+        run.check(ks == pk, ss.site(ln), "sink auto-adds %s = kinds the parser skips" % sorted(ks), "Sink::skip_trivia", "trivia-set@%s" % ("match" if len(ks) and ln == sk_sets[0][0] else "while"),
+                  ss.file, ln, "the parser skips %s without an event but the sink adds %s on its own: tokens of the other kinds are %s" %
+                  (sorted(pk), sorted(ks), "shifted into the wrong nodes and the last tokens of the input are dropped from the tree" if pk - ks else "added twice / parsed and auto-added"))
+    for q in ("Parser::previous_token_range", "Parser::previous_token_kind"):
+        f = ctx.syn.fn(q, "parser/src/parser.rs")
+        ls = [n for n in walk(f.body) if n.get("k") == "while"]
+        if len(ls) != 1:
+            raise LookupError("loop of " + q)
+        ks = token_kinds(ctx, ls[0]["c"], f.file)
+        run.check(ks == pk, f.site(ls[0]["ln"]), "%s walks back over %s" % (q, sorted(ks)), q, "trivia-set", f.file, ls[0]["ln"],
+                  "%s skips %s but skip_trivia skips %s: error positions are computed from the wrong token" % (q, sorted(ks), sorted(pk)))
 
 
 def r23b(ctx, run):
@@ -374,7 +420,7 @@ def extra_evidence(ctx, runs):
 
 def rules(ctx):
     return [
-        Rule("R23.a", "every parser loop consumes a token or exits, for every token kind and every reachable recovery-set context; index loops are monotone", 26, r23a),
+        Rule("R23.a", "every parser loop consumes a token or exits, for every token kind and every reachable recovery-set context; index loops are monotone; parser and sink agree on the trivia kinds", 30, r23a),
         Rule("R23.b", "no cycle of grammar functions entered without consuming a token (left recursion)", 10, r23b),
         Rule("R23.c", "only bump consumes; look-ahead restores the cursor on every exit; entry points run to EOF; the sink adds every token once", 16, r23c),
         Rule("R23.d", "the two unsafe blocks are guarded by their asserts and by the one-byte Event layout", 6, r23d),
